@@ -315,6 +315,64 @@ pub fn run(tier: Tier, seed: u64) -> i32 {
                 }
             }
         }
+        // one context object changed in place between executions (field values replaced, named
+        // sets of the list matchers replaced, cleared and refilled): a long-lived compiled filter
+        // and a fresh compilation of the same source agree on every state of that object
+        {
+            let (mctxs, lists0) = contexts();
+            let mut lists1 = lists0.clone();
+            for sets in lists1.values_mut() {
+                for (_, set) in sets.iter_mut() {
+                    let moved: BTreeSet<V> = set
+                        .iter()
+                        .map(|v| match v {
+                            V::Int(i) => V::Int(i + 1),
+                            V::Bytes(b) => V::Bytes([b.as_slice(), b"x"].concat()),
+                            other => other.clone(),
+                        })
+                        .collect();
+                    *set = moved;
+                }
+            }
+            let mut m = real_ctx(&w1.scheme, &mctxs[0]);
+            install_sets(&w1.scheme, &mut m, &w1.uni, &lists0);
+            // (values of context j or none, lists variant or none, clear first?)
+            let steps: Vec<(Option<usize>, Option<&MLists>, bool)> = vec![
+                (None, None, false),
+                (None, Some(&lists1), false),
+                (None, Some(&lists0), false),
+                (Some(1), None, false),
+                (Some(1), Some(&lists1), false),
+                (Some(3), Some(&lists0), true),
+                (Some(0), Some(&lists1), true),
+                (Some(0), Some(&lists0), false),
+                (Some(2), Some(&lists0), true),
+                (Some(0), Some(&lists0), true),
+            ];
+            for (si, (vals, lists, clear)) in steps.iter().enumerate() {
+                if *clear {
+                    m.clear();
+                }
+                if let Some(j) = vals {
+                    for (name, v) in &mctxs[*j] {
+                        let f = w1.scheme.get_field(name).expect("field");
+                        m.set_field_value(f, v.to_engine()).expect("well typed");
+                    }
+                }
+                if let Some(l) = lists {
+                    install_sets(&w1.scheme, &mut m, &w1.uni, l);
+                }
+                for k in 0..nf {
+                    let a = guarded(|| w1.filters[k].execute(&m).expect("same scheme"));
+                    let b = guarded(|| w1.scheme.parse(FILTERS[k]).expect("parses").compile().execute(&m).expect("same scheme"));
+                    run.eval(2);
+                    run.count("executions_on_a_context_changed_in_place", 2);
+                    if a != b {
+                        disagreements.push(format!("filter {:?} after in-place change {si} of the context: long-lived filter {a:?}, fresh compilation {b:?}", FILTERS[k]));
+                    }
+                }
+            }
+        }
         for d in disagreements {
             run.violation(format!("{ID}:repeated-execution:{d}"), format!("repeated / recompiled execution disagrees: {d}"), json!({"kind": "c18-repeat"}));
         }
